@@ -11,7 +11,9 @@ import os
 # queries measured to finish within the quick budget (<= 200 s, <= 8 GB) on the pinned tree; all others are thorough-only
 QUICK_OK = set('''op2_a0o0_b1o0_r1 op2_a0o0_b2o0_r0 op2_a0o0_b3o0_r1 op2_a2o0_b1o0_r1 op2_a1o0_b2o0_r1 op2_a0o0_b2u0_r0 op0_a0o0_b2o0_r0 op0_a2o0_b0o0_r0
 op0_a0o0_b0o0_r0 op0_a0o0_b2u0_r0 op0_a2u0_b0o0_r0 op2_a2o0_b2o0_r0 op1_a0o0_b0o0_r0 op2_a1o0_b2u0_r1 op0_a1o0_b1o0_r0 op2_a1o0_b0o0_r1 op2_a2o0_b0o0_r0
-op2_a2u0_b0o0_r0 op2_a3o0_b0o0_r1 op2_a0o0_b0o0_r0 op2_a1o0_b1o0_r0'''.split())
+op2_a2u0_b0o0_r0 op2_a3o0_b0o0_r1 op2_a0o0_b0o0_r0 op2_a1o0_b1o0_r0
+op1_a1o0_b1o0_r0 op1_a1o0_b3o0_r0 op1_a1o0_b3u0_r0 op1_a2o0_b0o0_r0 op1_a2u0_b0o0_r0 op1_a2o0_b2o0_r0 op1_a2o0_b2u0_r0 op1_a2u0_b2o0_r0 op1_a2u0_b2u0_r0
+op1_a3o0_b1o0_r0 op1_a3u0_b1o0_r0 op1_a0o0_b2o0_r0 op1_a0o0_b2u0_r0'''.split())
 def queries(tier):
     qs = _queries(tier)
     if tier == 'quick': qs = [q for q in qs if q.name in QUICK_OK or os.environ.get('C02_ALL')]
